@@ -208,8 +208,45 @@ def value_equality(chk, r, tier):
     chk.count("windowed-inds")
 
 
+def tiny_scale(chk, r, tier):
+    """the same configurations with every coordinate multiplied by a power of two (exact in float64): the answer does not change,
+    however small the cross products become (there is no tolerance in 'lies on a segment')"""
+    for kind in ("line", "multiline", "polygon", "multipolygon"):
+        for e in (-20, -30, -45) if tier == "quick" else (-10, -20, -30, -45, -200, 40):
+            sc = 2.0 ** e
+            shapes = random_family(kind, r, 8, 12)
+            pts = [[r.randint(-13, 13), r.randint(-13, 13)] for _ in range(40)]
+            for s_ in shapes[:6]:
+                for ring in geo.rings_of(kind, s_):
+                    for a, b in zip(ring, ring[1:]):
+                        if (a[0] + b[0]) % 2 == 0 and (a[1] + b[1]) % 2 == 0:
+                            pts.append([int(a[0] + b[0]) // 2, int(a[1] + b[1]) // 2])
+            model = model_matrix(kind, shapes, pts)
+
+            def scaled(x):
+                return [scaled(y) for y in x] if isinstance(x, list) else x * sc
+            parr = geo.make_array("point", scaled(pts), "float64")
+            for si, shape in enumerate(shapes):
+                sarr = geo.make_array(kind, [scaled(shape)], "float64")
+                try:
+                    impl = np.asarray(parr.intersects(sarr[0]))
+                except Exception as ex:  # noqa: BLE001
+                    chk.violation(f"intersects/{kind}/array-form-raises/{common.err_kind(ex)}", dict(api="PointArray.intersects", kind=kind, shape=shape, scale=f"2**{e}")); continue
+                chk.evaluated(len(pts))
+                for j in np.nonzero(impl != model[si])[0]:
+                    j = int(j)
+                    if geo.oracle_pis(kind, shape, pts[j]) == "on-ring":
+                        continue
+                    chk.violation(f"intersects/{kind}/scaled-coordinates/impl={bool(impl[j])}",
+                                  dict(api="PointArray.intersects", kind=kind, shape=shape, point=pts[j], scale=f"2**{e}", impl=bool(impl[j]),
+                                       model=bool(model[si][j])), size=len(geo.verts_of(kind, shape)))
+                    break
+    chk.count("tiny-scale")
+
+
 def run_cases(chk, tier):
     r = common.rng(PROP)
+    tiny_scale(chk, r, tier)
     value_equality(chk, r, tier)
     fam = families(tier)
     for kind in SHAPE_KINDS:
